@@ -6,10 +6,14 @@
       pmt     mime.ParseMediaType (any function),
       choose  which of several failing resolvers of one resource Go's map iteration meets first
               (any function that returns one of them: [choose_ok]),
-      sch     any resource schema (any attributes, to-one / to-many relationships, any subset of
+      sch     any resource schema (any attributes; relationships resolved by the library's to-one /
+              to-many resolvers or by ANY RelationshipResolver implementation of the application:
+              any function from (resource value, dataRequested) to an error or a types.Relationship
+              with any Links, any Data - none, null, one, many - and any Meta, serialisable or not,
+              likewise for AddRelationshipMembers / RemoveRelationshipMembers; any subset of
               Get / Patch / Create / Delete / AddMembers / RemoveMembers, any resolver outcomes),
       rq      any request (any method, path, Accept lines, query parameter names, body: absent /
-              malformed or any JSON tree).
+              malformed, or any JSON tree followed by any bytes).
     No bound on any of them. *)
 From Coq Require Import List NArith ZArith Bool String.
 From ApiFu Require Import Base.Sexp JsonApi.JsonApiModel JsonApi.JsonApiSpec JsonApi.JsonApiProofs JsonApi.JsonApiExtras.
@@ -52,15 +56,45 @@ Section C19.
     identity_and_links sch rq data top = None.
   Proof. exact (ja_resource_identity pmt choose choose_one_of_them sch rq). Qed.
 
-  (** the same for GET / PATCH of /{type}/{id}, in plain terms *)
+  (** the same for GET / PATCH of /{type}/{id}, in plain terms: the data is one resource object with
+      the path's type and id; every relationship object belongs to a relationship definition [d] of
+      the type and its links are exactly the standard self / related links of THIS type, id and
+      relationship, overlaid with the links [d]'s resolver supplied for the value [val] the
+      application returned for THIS request ([supplied] is [] for the library's resolvers) *)
   Theorem C19_ja_fetch_identity : forall st ct v data top c t id,
     serve_http fixed pmt choose sch rq = Resp st ct (WDoc v data [] top) c ->
     endpoint_of sch (rq_path rq) = EResource t id -> rq_method rq <> s_DELETE ->
-    exists i, data = WOne i /\ w_type i = rt_name t /\ w_id i = id /\
+    exists i val, data = WOne i /\ w_type i = rt_name t /\ w_id i = id /\
               links_equal top [(s_self, rq_path rq)] = true /\
+              resource_value rq t id = Some val /\
               (forall name rel, In (name, rel) (w_rels i) ->
-                                links_equal (rel_links rel) (standard_links (rt_name t) id name) = true).
+                 exists d, In d (rt_rels t) /\ rd_name d = name /\
+                   links_equal (rel_links rel)
+                     (overlay (standard_links (rt_name t) id name) (rel_links (supplied d val false))) = true).
   Proof. exact (fetch_identity pmt choose choose_one_of_them sch rq). Qed.
+
+  (** a request document followed by anything but white space is malformed: 400 *)
+  Theorem C19_ja_trailing_bytes : forall t id j tail,
+    acceptable pmt (rq_accept rq) = true -> forallb supported_parameter (rq_query rq) = true ->
+    endpoint_of sch (rq_path rq) = EResource t id -> rq_method rq = s_PATCH ->
+    rq_body rq = BJson j tail -> forallb is_json_space tail = false ->
+    answer_status (serve_http fixed pmt choose sch rq) = Some 400.
+  Proof. exact (trailing_bytes_400 pmt choose choose_one_of_them sch rq). Qed.
+
+  (** histories: every answer of a sequence of requests served by one API value satisfies the Spec
+      of its own request, and the answer to a request is the same wherever in a history it is
+      served (the model has no state; that the implementation behaves like it is checked on
+      histories against resolvers sharing one Links map, see checks/C19.design.md) *)
+  Theorem C19_ja_history : forall rqs,
+    Forall2 (fun rq o => exists st bd c, o = Resp st media_type bd c /\
+                                          oracle pmt sch rq (Some (st, media_type, Some bd)) = None)
+            rqs (serve_history pmt choose sch rqs).
+  Proof. exact (history_spec pmt choose choose_one_of_them sch). Qed.
+
+  Theorem C19_ja_history_independent : forall before before' rq',
+    nth (List.length before) (serve_history pmt choose sch (before ++ [rq'])) Panic =
+    nth (List.length before') (serve_history pmt choose sch (before' ++ [rq'])) Panic.
+  Proof. exact (history_independent pmt choose sch). Qed.
 
   (** everything at once: the Spec oracle that the check runs on the implementation's answers
       accepts every answer of the model *)
@@ -164,11 +198,20 @@ Theorem C19_status_refuted_before_fix :
   exists rq, serve_http pinned_status toy_pmt toy_choose toy_schema rq = Panic.
 Proof. exact status_refuted_before_fix. Qed.
 
+Theorem C19_nil_data_refuted_before_fix :
+  exists rq, serve_http pinned_nil_data toy_pmt toy_choose toy_schema rq = Panic /\
+             answer_status (serve_http fixed toy_pmt toy_choose toy_schema rq) = Some 500.
+Proof. exact nil_data_refuted_before_fix. Qed.
+
 Print Assumptions C19_ja_well_formed.
 Print Assumptions C19_ja_status.
 Print Assumptions C19_ja_ref_status.
 Print Assumptions C19_ja_resource_identity.
 Print Assumptions C19_ja_fetch_identity.
+Print Assumptions C19_ja_trailing_bytes.
+Print Assumptions C19_ja_history.
+Print Assumptions C19_ja_history_independent.
+Print Assumptions C19_nil_data_refuted_before_fix.
 Print Assumptions C19_model_satisfies_spec.
 Print Assumptions C19_respects_equiv.
 Print Assumptions C19_ja_406.
